@@ -7,7 +7,8 @@ def engines : List (String × (List String → String)) := [
   ("crawl", Wpull.Crawl.handle),
   ("path", Wpull.Path.handle),
   ("robots", Wpull.Robots.handle),
-  ("decomp", Wpull.Decomp.handle)
+  ("decomp", Wpull.Decomp.handle),
+  ("table", Wpull.Table.handle)
 ]
 
 def handle (line : String) : String :=
